@@ -39,7 +39,7 @@ SKIP = {"FuncRun", "FuncBindNative", "FuncExecute", "FuncEval", "FuncParse", "Fu
         "FuncExecuteShell", "FuncType", "FuncSprintf", "FuncGrep"}
 
 KINDS = ["absent", "null", "true", "false", "int", "decimal", "string", "date", "pattern", "list0", "list1", "list2", "listpair",
-         "set0", "set1", "map0", "map1", "object0", "object1", "func", "input", "output", "node", "break", "continue", "return"]
+         "set0", "set1", "map0", "map1", "object0", "object1", "objectstr", "objectstrbad", "func", "input", "output", "node", "break", "continue", "return"]
 
 
 def make_value(V, F, it, kind, name):
@@ -67,6 +67,16 @@ def make_value(V, F, it, kind, name):
         return V.map_of(it, [(V.string(it, name + ".k"), V.int(it, name + ".v"))], name)
     if kind == "object1":
         return V.object_of(it, [("a", V.int(it, name + ".a"))], name)
+    if kind == "objectstr":
+        # an object that renders itself: its _str_ member is a function of the object returning anything or failing
+        def beh(it_, vals):
+            c = it_.path.choose(3)
+            if c == 2:
+                raise PyRaise(runtime_error(V.w, it_, V.string(it_, name + ".errval"), name + ".err"))
+            return V.string(it_, name + ".text") if c == 0 else V.int(it_, name + ".num")
+        return V.object_of(it, [("_str_", F.func(name + "_str", ["self"], beh)), ("a", V.int(it, name + ".a"))], name)
+    if kind == "objectstrbad":
+        return V.object_of(it, [("_str_", V.int(it, name + ".notafunction"))], name)
     raise ValueError(kind)
 
 
@@ -128,6 +138,11 @@ def units(w):
         if o.kind == "raise" and o.exc_class == "CklRuntimeError":
             v = o.exc.fields.get("value")
             it.check("raises:error-value-is-a-language-value", isinstance(v, Obj) and v.cls.issubclass(VALUE))
+        if o.kind == "return":
+            # a host None (a branch that falls off the end) surfaces later as a host AttributeError in the caller
+            v = o.value
+            it.check("post:the-result-is-a-language-value", (isinstance(v, Obj) and v.cls.issubclass(VALUE)) or (isinstance(v, SElem) and v.sort == "value"),
+                     detail=f"returned {type(v).__name__}: {v!r}"[:120])
 
     # ------------------------------------------------------------------ (A1) natives
     for cname in sorted(funcs):
@@ -151,7 +166,11 @@ def units(w):
             args = Obj(vals["Args"], {"argNames": PList(list(names)), "args": la, "restArgName": None, "pos": V.pos(it)})
             args.fresh = False
             div0 = {}
-            env = real_env(w, it, {"compare": F.func("compare", ["a", "b"], lambda it_, vs: V.int(it_, it_.fresh("cmp"))),
+            def cmp_result(it_, vs):
+                # a user-supplied comparison function may return anything
+                k = ("int", "decimal", "string", "null", "true")[it_.path.choose(5)]
+                return make_value(V, F, it_, k, it_.fresh("cmp").replace("~", "_"))
+            env = real_env(w, it, {"compare": F.func("compare", ["a", "b"], cmp_result),
                                    "identity": F.func("identity", ["obj"], lambda it_, vs: vs[0])})
             return [f, args, env, V.pos(it, "cpos")], {}, {"la": la}
 
@@ -223,8 +242,10 @@ def units(w):
                 fs["valueExpr"] = lambda it: child("v")
             U.append(node_unit(cls_, fs, name=f"nodes.py::{cls_}.evaluate[all kinds,{what}]"))
     for cls_ in ("NodeListComprehensionParallel", "NodeListComprehensionProduct", "NodeSetComprehensionParallel", "NodeSetComprehensionProduct"):
-        U.append(node_unit(cls_, {"valueExpr": body, "identifier1": "x", "listExpr1": lambda it: child("c"), "what1": None,
-                                  "identifier2": "y", "listExpr2": lambda it: child("d"), "what2": None, "conditionExpr": None}))
+        for what in (None, "keys", "values", "entries"):
+            U.append(node_unit(cls_, {"valueExpr": body, "identifier1": "x", "listExpr1": lambda it: child("c"), "what1": what,
+                                      "identifier2": "y", "listExpr2": lambda it: child("d"), "what2": what, "conditionExpr": None},
+                               name=f"nodes.py::{cls_}.evaluate[all kinds,{what}]"))
     U.append(node_unit("NodeSet", {"items": lambda it: PList([child("e"), child("f")])}, name="nodes.py::NodeSet.evaluate[elements of all kinds]"))
     U.append(node_unit("NodeSet", {"items": lambda it: PList([spread(it)])}, name="nodes.py::NodeSet.evaluate[spread of all kinds]"))
     U.append(node_unit("NodeMap", {"keys": lambda it: PList([child("k")]), "values": lambda it: PList([child("v")])}, name="nodes.py::NodeMap.evaluate[key and value of all kinds]"))
@@ -238,6 +259,98 @@ def units(w):
                        name="nodes.py::NodeFuncall.evaluate[spread argument of all kinds]"))
     U.append(node_unit("NodeAnd", {"expressions": lambda it: PList([child("a"), child("b")])}, name="nodes.py::NodeAnd.evaluate[operands of all kinds]"))
     U.append(node_unit("NodeOr", {"expressions": lambda it: PList([child("a"), child("b")])}, name="nodes.py::NodeOr.evaluate[operands of all kinds]"))
+
+    # ------------------------------------------------------------------ (A3) conversions and renderings of every value class, unbounded payloads
+    # (the kind sweep above bounds string payloads to 2 characters and renders opaquely; conversions such as date('...')
+    #  depend on the length and shape of the text, and an object renders itself through its _str_ member)
+    CONV_KINDS = ["null", "true", "false", "int", "decimal", "string", "date", "pattern", "list1", "list2", "listpair", "set1", "map1", "object1",
+                  "objectstr", "objectstrbad", "func", "input", "output"]
+
+    def conv_value(it, kind):
+        if kind in ("string", "pattern"):
+            return V.of_kind(it, kind, "recv")          # any text, any length
+        return make_value(V, F, it, kind, "recv")
+    for kind in CONV_KINDS:
+        probe = conv_value.__defaults__  # noqa (placeholder to keep flake quiet)
+    seen_conv = set()
+    for kind in CONV_KINDS:
+        cname = {"null": "ValueNull", "true": "ValueBoolean", "false": "ValueBoolean", "int": "ValueInt", "decimal": "ValueDecimal", "string": "ValueString",
+                 "date": "ValueDate", "pattern": "ValuePattern", "list1": "ValueList", "list2": "ValueList", "listpair": "ValueList", "set1": "ValueSet",
+                 "map1": "ValueMap", "object1": "ValueObject", "objectstr": "ValueObject", "objectstrbad": "ValueObject", "func": "ValueFunc",
+                 "input": "ValueInput", "output": "ValueOutput"}[kind]
+        cls_ = vals[cname]
+        meths = sorted({m_ for c_ in cls_.mro for m_ in getattr(c_, "methods", {}) if m_.startswith("as") and m_[2:3].isupper()})
+        for meth in meths + ["__repr__"]:
+            f = cls_.lookup(meth)
+            if f is None:
+                continue
+            owner = f.cls.name if getattr(f, "cls", None) is not None else cname
+
+            def setup(it, kind=kind):
+                return [conv_value(it, kind)], {}, {}
+
+            def post(it, c, o, meth=meth):
+                if o.kind == "raise":
+                    errval_ok(it, o)
+                    return
+                if meth == "__repr__":
+                    from pyvc.values import is_strlike
+                    it.check("post:renders-to-a-text", is_strlike(o.value), detail=repr(o.value)[:80])
+                else:
+                    errval_ok(it, o)
+            U.append(Unit(f"values.py::{owner}.{meth}", setup, post, name=f"values.py::{cname}.{meth}[{kind}, any payload]", abstractions=DATE_ABS,
+                          config={"max_unroll": 12, "max_depth": 40, "repr_mode": "inline"}, prepare=install_streams, replay=replay_forms))
+
+    # ------------------------------------------------------------------ (A4) loops whose body changes the container they run over
+    def mutating_body(coll_holder, how):
+        def outcome(it, env):
+            c = coll_holder["c"]
+            n_ = coll_holder.setdefault("n", 0)
+            coll_holder["n"] = n_ + 1
+            if how == "object":
+                it.dict_set(c.fields["value"], f"added{n_}", V.int(it, f"added{n_}"))
+            elif how == "map":
+                it.dict_set(c.fields["value"], V.string(it, f"addedkey{n_}"), V.int(it, f"added{n_}"))
+            elif how == "set":
+                it.set_add(c.fields["value"], V.string(it, f"addedelem{n_}"), None)
+            elif how == "map-remove":
+                # the body removes every entry but the one it is at (so also entries the loop has not visited yet)
+                ent = [e for e in env.fields["map"].entries if e[0] == "x"]
+                d = c.fields["value"]
+                d.entries[:] = d.entries[:1] if n_ == 0 else d.entries
+            elif how == "object-remove":
+                d = c.fields["value"]
+                d.entries[:] = d.entries[:1] if n_ == 0 else d.entries
+            return V.TRUE
+        return S.node("mutating-body", outcome)
+    def two_entries(it, how):
+        if how == "map-remove":
+            k0, k1 = V.string(it, "k0"), V.string(it, "k1")
+            it.assume(k0.fields["value"].z != k1.fields["value"].z)
+            return V.map_of(it, [(k0, V.int(it, "v0")), (k1, V.int(it, "v1"))], "c")
+        return V.object_of(it, [("a", V.int(it, "v0")), ("b", V.int(it, "v1"))], "c")
+    for how in ("map-remove", "object-remove"):
+        for what in (None, "keys", "values", "entries"):
+            holder_ = {}
+
+            def coll_node2(it, holder_=holder_, how=how):
+                holder_.clear()
+                holder_["c"] = two_entries(it, how)
+                return S.node("c", holder_["c"])
+            U.append(node_unit("NodeFor", {"identifiers": lambda it: PList(["x"]), "expression": coll_node2,
+                                           "block": lambda it, holder_=holder_, how=how: mutating_body(holder_, how), "what": what},
+                               name=f"nodes.py::NodeFor.evaluate[{how.split('-')[0]} entries removed by the loop body, {what}]"))
+    for how, kind_ in (("object", "object1"), ("map", "map1"), ("set", "set1")):
+        for what in (None, "keys", "values", "entries"):
+            holder_ = {}
+
+            def coll_node(it, holder_=holder_, kind_=kind_):
+                holder_.clear()
+                holder_["c"] = make_value(V, F, it, kind_, "c")
+                return S.node("c", holder_["c"])
+            U.append(node_unit("NodeFor", {"identifiers": lambda it: PList(["x"]), "expression": coll_node,
+                                           "block": lambda it, holder_=holder_, how=how: mutating_body(holder_, how), "what": what},
+                               name=f"nodes.py::NodeFor.evaluate[{how} changed by the loop body, {what}]"))
 
     # range(): outside the kind enumeration above (its loops need contracts); the C19 units prove it for all int arguments
     # and steps with no exception allowed
